@@ -387,6 +387,67 @@ def _component_task(size):
     return size, nseq, ntr, failures, len(outs)
 
 
+# ------------------------------------------------------------------ part D: the registry changes between renders of a cached template
+def _rereg_task(size):
+    """A compiled (cached) Template must stay a pure function of its source: what a `{% component "n" %}` tag renders is looked up
+    when it renders.  History ops: R = render component c18host (its cached template nests `c18v`), T = render
+    cached_template('{% component "c18v" / %}'), S = re-register the name `c18v` with the other of two classes.  Every sequence of
+    <= 5 ops; oracle = the output of a template compiled afresh at that moment (model: the version currently registered)."""
+    from itertools import product
+
+    from django.template import Context, Template
+
+    from django_components import Component
+    from django_components.component_registry import registry
+    from django_components.template import cached_template
+
+    V = [type("C18V%d" % i, (Component,), {"template": "<b>v%d</b>" % i, "__module__": "verif_c18d"}) for i in (1, 2)]
+    host = type("C18Host", (Component,), {"template": "<i>{% component 'c18v' / %}</i>", "__module__": "verif_c18d"})
+    for n in ("c18v", "c18host"):
+        if n in registry.all():
+            registry.unregister(n)
+    registry.register("c18host", host)
+    failures, nseq, ntr = [], 0, 0
+    for depth in range(1, 6):
+        for seq_ in product("RTS", repeat=depth):
+            if "S" not in seq_ or seq_[-1] == "S":
+                continue
+            boot.set_components_setting(template_cache_size=size)
+            boot.drop_template_cache()
+            if "c18v" in registry.all():
+                registry.unregister("c18v")
+            cur = 0
+            registry.register("c18v", V[cur])
+            nseq += 1
+            for j, op in enumerate(seq_):
+                ntr += 1
+                if op == "S":
+                    registry.unregister("c18v")
+                    cur = 1 - cur
+                    registry.register("c18v", V[cur])
+                    continue
+                try:
+                    if op == "R":
+                        out = _strip(host.render(render_dependencies=False))
+                        want = "<i><b>v%d</b></i>" % (cur + 1)
+                    else:
+                        out = _strip(cached_template("{% component 'c18v' / %}").render(Context({})))
+                        want = "<b>v%d</b>" % (cur + 1)
+                except Exception as e:  # noqa
+                    out = "%s: %s" % (type(e).__name__, str(e)[:120])
+                if out != want:
+                    failures.append((f"op #{j} ({op}) of the history {''.join(seq_)} under cache size {size} gave {out!r}; a template compiled afresh gives {want!r}",
+                                     {"size": size, "history": "".join(seq_), "part": "rereg"}))
+                    break
+            if len(failures) > 5:
+                break
+    boot.clear_render_registries()
+    for n in ("c18v", "c18host"):
+        if n in registry.all():
+            registry.unregister(n)
+    return size, nseq, ntr, failures
+
+
 def run(ctx):
     ev, fnd = ctx.ev, ctx.fnd
     thorough = ctx.tier == "thorough"
@@ -453,6 +514,13 @@ def run(ctx):
                     samples=[{"cache_size": size, "sequence": ["c18a", "c18c", "c18b", "c18a"]}] if size == 1 else None)
         for problem, case in failures:
             fnd.report(f"comp:{size}:{len(case['sequence'])}", problem, {"part": "component", **case})
+    # ---- part D
+    for size, nseq, ntr, failures in par.run_tasks(_rereg_task, [0, 1, 2, 128]):
+        ev.add_part(f"reregistration_histories_size_{size}", states=nseq, transitions=ntr, validated=ntr, nontrivial=nseq,
+                    bound={"ops": ["R render host component", "T render cached_template(tag)", "S re-register the name with the other class"], "max_len": 5},
+                    samples=[{"cache_size": size, "history": "RSR"}] if size == 128 else None)
+        for problem, case in failures:
+            fnd.report(f"rereg:{size}:{len(case['history'])}", problem, case)
     boot.set_components_setting(template_cache_size=128)
     boot.drop_template_cache()
     ev.assumptions = [
@@ -483,5 +551,10 @@ def replay(ctx, case):
         size, nseq, ntr, failures, nouts = _component_task(case["size"])
         for f in failures:
             print(f)
+        return not failures
+    if part == "rereg":
+        size, nseq, ntr, failures = _rereg_task(case["size"])
+        for f in failures:
+            print(f[0])
         return not failures
     raise ValueError(part)
